@@ -64,7 +64,7 @@ def gen_subscribe_entry(vc, name, max_ttl=TTL_FOREVER, shapes=ALL_SHAPES):
 class AWorld:
     """an announcer with one service instance in an arbitrary state"""
 
-    def __init__(self, vc, name="a", entry=None, stub_queue=True, track=("A_sub",), shapes=("one-endpoint",)):
+    def __init__(self, vc, name="a", entry=None, stub_queue=True, track=("A_sub",), shapes=("one-endpoint",), others=(0,)):
         self.vc = vc
         self.loop = vc.install_loop(LL.FakeLoop(vc.real(name + ".now", 0)))
         self.prot, self.sent = SS.gen_sd_protocol(vc, name + ".prot")
@@ -81,7 +81,25 @@ class AWorld:
             # the offer task of a non-cyclic instance ends on its own; the instance is still
             # announced (running) until it is stopped
             self.inst._task.finished = vc.bool(name + ".offer_task_finished")
+        # the statement's premise: at most one instance matches a given entry -- up to two
+        # further instances (the property quantifies over zero to three) that do not claim it,
+        # announced before or after the instance of interest
+        n_others = vc.choice(name + ".other_instances", others)
+        first = n_others > 0 and vc.bool(name + ".other_instance_first")
+        self.others = []
+        for i in range(n_others):
+            svc = SCFG.gen_service_with_groups(vc, name + ".other" + str(i) + ".service", [self.entry.minver_or_counter % 65536])
+            oi = SD.ServiceInstance(svc, ServerRecorder(self.log, False), self.ann, self.prot.timings)
+            if vc.bool(name + ".other" + str(i) + ".running"):
+                oi._task = LL.Task(self.loop, None)
+                vc.assume(not svc.matches_subscribe(self.entry))
+            self.others.append(oi)
+        if first:
+            self.ann.announcing_services.append(self.others[0])
         self.ann.announcing_services.append(self.inst)
+        for i, oi in enumerate(self.others):
+            if not (first and i == 0):
+                self.ann.announcing_services.append(oi)
         self.ann.started = True
         self.queued = vc.stub(self.ann, "queue_send") if stub_queue else None
         self.A = vc.opaque(name + ".A", "addr")
@@ -239,9 +257,9 @@ def ob_announcer_handle_subscribe(vc):
     TTL, to the sender only: the instance's Ack/Nack if one (running, matching) instance
     claims the entry, one Nack from the announcer otherwise; a StopSubscribe for a known
     eventgroup gets no answer"""
-    w = AWorld(vc)
+    w = AWorld(vc, others=(0, 1, 2))
     matches = w.service.matches_subscribe(w.entry)
-    w.ann.handle_subscribe(w.entry, w.A)
+    vc.body(SD.ServiceAnnouncer.handle_subscribe)(w.ann, w.entry, w.A)
     claimed = w.running and matches
     if w.entry.ttl == 0 and claimed:
         vc.cover("stop-subscribe")
@@ -335,7 +353,7 @@ SERVER_SUBSCRIPTION_OBLIGATIONS = [
 ]
 
 BOUNDED = [
-    "one service instance per announcer (its subscription store is unbounded)",
+    "one to three service instances per announcer, at most one of them claiming a given entry (the property's own quantifier); each subscription store is unbounded",
     "Subscribe entries carry 0..2 endpoint options and at most one other option",
 ]
 
@@ -344,7 +362,8 @@ BOUNDED = [
 
 
 class FWorld:
-    """an announcer with two service instances in arbitrary states (BOUNDED: two instances)"""
+    """an announcer with one to three service instances in arbitrary states (the property
+    quantifies over one to three instances)"""
 
     def __init__(self, vc, name="f"):
         self.vc = vc
@@ -357,7 +376,7 @@ class FWorld:
         vc.assume(t.REQUEST_RESPONSE_DELAY_MIN <= t.REQUEST_RESPONSE_DELAY_MAX)
         t.ANNOUNCE_TTL = vc.int(name + ".announce_ttl", 1, TTL_FOREVER)
         self.insts = []
-        for i in range(2):
+        for i in range(vc.choice(name + ".instances", (2, 1, 3))):
             svc = SCFG.gen_service(vc, name + ".svc" + str(i))
             inst = SD.ServiceInstance(svc, ServerRecorder([], False), self.ann, t)
             inst._can_answer_offers = vc.bool(name + ".inst" + str(i) + ".ready")
@@ -406,7 +425,7 @@ def ob_handle_findservice(vc):
         vc.cover("unicast")
         vc.check_eq(len(w.loop.timers), 0, "handle_findservice.unicast.no_added_delay")
         vc.check_eq(w.loop.pending(), [(i._send_offer, (w.A,)) for i in answering], "handle_findservice.unicast.one_answer_per_matching_ready_instance")
-    if len(answering) == 2:
+    if len(answering) >= 2:
         vc.cover("both")
     if len(answering) == 0:
         vc.cover("nobody")
